@@ -631,6 +631,36 @@ func worker(sh *ev.Shard) {
 			}
 		}
 	}
+	// fixed32 field 1 with every 4-byte payload over an 8-symbol alphabet, under the definitions that declare tag 1 as a
+	// NESTED message: the shortest inputs in which scalar bytes can also be parsed as a message (a varint never
+	// can, fixed64 needs 9 bytes), i.e. where a missing wire-type check in the nested accessors shows
+	if !sh.Thorough() { // the thorough tier covers all 5-byte strings anyway
+		b := make([]byte, 5)
+		b[0] = 0x0D
+		sigma8 := []byte{0x00, 0x01, 0x02, 0x08, 0x0A, 0x12, 0x80, 0xFF}
+		for x := 0; x < 1<<12; x++ {
+			if !mine() {
+				continue
+			}
+			y := x
+			for i := 1; i < 5; i++ {
+				b[i] = sigma8[y%len(sigma8)]
+				y /= len(sigma8)
+			}
+			fields, ok := lazyref.RefFields(b)
+			for _, di := range arbDefs {
+				if defs[di][1] == nil {
+					continue
+				}
+				sh.Cur("fixed32-under-nested-def", fmt.Sprintf("bytes=%x def=%s", b, defString(defs[di])))
+				c.runPair(append([]byte{}, b...), defs[di], getDecs(di), ok, fields)
+				arb++
+				if ok {
+					arbWF++
+				}
+			}
+		}
+	}
 	sh.Count("arbitrary_byte_cases", arb)
 	sh.Count("arbitrary_cases_wellformed_full_oracle", arbWF)
 	sh.Count("evals", c.calls)
